@@ -84,3 +84,20 @@ def free_then_reset(chk, P, fname, unit, free_funcs, rule="R-FREERESET", min_ins
     if n < min_inst:
         chk.broke("%s: only %d release-of-field sites in %s (expected >= %d)" % (rule, n, fname, min_inst))
     return n
+
+
+def dominated(chk, P, fname, unit, targets, fact, rule, what, min_inst=1, track_calls=None, canon=None):
+    """every node selected by targets(f) is reached only after `fact(state)` holds (must-fact dataflow)"""
+    f = P.need_func(fname, unit)
+    m = must.Must(f, track_calls=track_calls, canon=canon).run()
+    n = 0
+    for x, label in targets(f):
+        st = m.before.get(x["id"])
+        if st is None:
+            continue
+        n += 1
+        ok = fact(st)
+        chk.inst(rule, f, "%s#%d" % (label, n), ok, what + (" (facts: %s)" % must.facts_text(st)[:6] if not ok else ""), loc=f.loc(x))
+    if n < min_inst:
+        chk.broke("%s: only %d target sites in %s (expected >= %d)" % (rule, n, fname, min_inst))
+    return n
